@@ -142,6 +142,19 @@ def escapeByte (c : UInt8) : Bytes :=
 /-- `std::string util::escape(std::string const&)` -/
 def escape (s : Bytes) : Bytes := s.flatMap escapeByte
 
+/-! ## urlencode (util.cpp) -/
+
+def urlUnreserved (c : UInt8) : Bool :=
+  Gen.urlAlnum c.toNat || Gen.urlKeep.contains c.toNat
+
+/-- one iteration of `urlencode_impl` -/
+def urlencodeByte (c : UInt8) : Bytes :=
+  if urlUnreserved c then [c]
+  else [UInt8.ofNat (Gen.urlEsc0 c.toNat), UInt8.ofNat (Gen.urlEsc1 c.toNat), UInt8.ofNat (Gen.urlEsc2 c.toNat)]
+
+/-- `std::string util::urlencode(std::string const&)` -/
+def urlencode (s : Bytes) : Bytes := s.flatMap urlencodeByte
+
 /-! ## list_dir and main -/
 
 /-- one row of the listing: the entry name and what is appended (`"/"` for directories) -/
@@ -152,6 +165,14 @@ deriving Repr, DecidableEq
 
 /-- the visible text of a row: `util::escape(d.name()) << add` -/
 def Row.text (r : Row) : Bytes := escape r.name ++ r.add
+
+/-- the link target of a row: `util::urlencode(d.name()) << add`, emitted inside single quotes -/
+def Row.href (r : Row) : Bytes := urlencode r.name ++ r.add
+
+/-- the anchor element as `list_dir` writes it:
+`"<a href='" << util::urlencode(d.name()) << add << "'>" << util::escape(d.name()) << add << "</a>"` -/
+def Row.anchor (r : Row) : Bytes :=
+  [60,97,32,104,114,101,102,61,39] ++ r.href ++ [39,62] ++ r.text ++ [60,47,97,62]
 
 inductive Outcome where
   /-- `show404()` -/
